@@ -102,11 +102,11 @@ FLOORS = {'nontrivial': 0.12, 'family=rendering': 0.6, 'family=chain': 0.08,
           'kind=stats_tests': 0.04, 'kind=stats_bylabels': 0.03, 'kind=failed': 0.025,
           'shape=scalar': 0.03, 'shape=1d': 0.08, 'shape=2d': 0.05, 'shape=3d': 0.05,
           'bins=none': 0.1, 'bins=some': 0.12, 'unit-dim': 0.06, 'nds>1': 0.09,
-          'rep=table': 0.15, 'rep=fulltable': 0.09, 'rep=full': 0.07, 'rep=plot-or-empty': 0.025,
-          'verb=SILENT': 0.05, 'verb=SUMMARY': 0.08, 'verb=DEFAULT': 0.07,
+          'rep=table': 0.12, 'rep=fulltable': 0.09, 'rep=full': 0.07, 'rep=plot-or-empty': 0.025,
+          'verb=SILENT': 0.03, 'verb=SUMMARY': 0.06, 'verb=DEFAULT': 0.07,
           'verb=INTERMEDIATE': 0.05, 'verb=FULL_DETAILS': 0.045, 'verb=DEVELOPMENT': 0.03,
           'detail-table-checked': 0.07, 'detail-partial-rows': 0.01, 'nested-part-rendered': 0.02,
-          'stats-no-ok-item': 0.02, 'bylabels-no-group': 0.001,
+          'stats-no-ok-item': 0.02, 'bylabels-no-group': 0.0005,
           'outer=True/nested=False': 0.008, 'outer=False/nested=False': 0.03,
           'outer=True/nested=True': 0.015,
           'chain-slice-rendered': 0.04, 'chain-join': 0.04, 'chain-index': 0.015, 'chain-copy': 0.02,
@@ -147,8 +147,9 @@ _SHAPE = st.one_of(
     st.lists(st.sampled_from([2, 3, 4]), min_size=1, max_size=1),
     st.lists(st.sampled_from([1, 2, 2, 3]), min_size=2, max_size=2),
     st.lists(st.sampled_from([1, 2, 2, 3]), min_size=3, max_size=3))
-_VERB = st.sampled_from([0, 1, 1, 2, 2, 3, 3, 4, 4, 5])
-_REP = st.sampled_from(['table'] * 5 + ['fulltable'] * 5 + ['full'] * 5 + ['plot', 'empty'])
+# (Hypothesis favours the first elements of a sampled_from list: the rarest wishes come first)
+_VERB = st.sampled_from([3, 4, 5, 2, 1, 3, 4, 2, 1, 0])
+_REP = st.sampled_from(['full', 'fulltable', 'table'] * 5 + ['plot', 'empty'])
 _RELERR = st.sampled_from([0.01, 0.1, 0.5])
 
 
